@@ -1,7 +1,7 @@
 """C20 — double-word-CAS structures (LIFO, dist FIFO, flushable stack, multi-signal) are ABA-safe (structural part)."""
 from core import strip, strip_parens, is_field, order_ge, key_str, key_mentions
 from facts import AnalysisBroken
-from rules import (through_local, nodeset, callpred, atom_from, reach, ev, Unevaluable, is_compiler_fence, ret_const)
+from rules import (check_init, through_local, nodeset, callpred, atom_from, reach, ev, Unevaluable, is_compiler_fence, ret_const)
 from symword import Machine
 from props import c01
 
@@ -396,3 +396,5 @@ def run(ctx):
     check_lifo_dist(ctx, P)
     check_stack(ctx, P)
     check_msignal(ctx, P)
+    check_init(ctx, P, "fiber_multi_signal_init", [("fiber_multi_signal::data", "counter", 0), ("fiber_multi_signal::data", "head", 0)], rule="init.msignal")
+    check_init(ctx, P, "mpmc_lifo_init", [("mpmc_lifo_t::data", "counter", 0), ("mpmc_lifo_t::data", "head", 0)], rule="init.lifo")
